@@ -70,19 +70,32 @@ theorem trailing_space_invariant (w d : Nat) (s e : Bool) (a ws b : Bytes) (hws 
     normRun w d s e (a ++ ws ++ [10] ++ b) = normRun w d s e (a ++ [10] ++ b) := by
   exact normRun_trailing w d s e a ws b hws ha
 
-/-- **C10.leading_space_invariant**: how an input line that is blank, a `--` comment line or the code line after the
-run is indented does not influence the output. -/
+/-- **C10.leading_space_invariant**: how an input line that is blank, a comment line (`--` or PICO-8's `//`) or the
+code line after the run is indented does not influence the output. -/
 theorem leading_space_invariant (w d : Nat) (s e : Bool) (a ws b : Bytes) (hws : ws.all (fun c => c == 32 || c == 9) = true)
-    (hb : b = [] ∨ [45, 45].isPrefixOf b = true ∨ b.head? = some 10) :
+    (hb : b = [] ∨ [45, 45].isPrefixOf b = true ∨ [47, 47].isPrefixOf b = true ∨ b.head? = some 10) :
     normRun w d s e (a ++ [10] ++ ws ++ b) = normRun w d s e (a ++ [10] ++ b) := by
   apply normRun_leading w d s e a ws b hws
-  rcases hb with hb | hb | hb
+  rcases hb with hb | hb | hb | hb
   · exact Or.inl hb
-  · exact Or.inr (Or.inl ((isPrefixOf_dashes b).mp hb))
+  · obtain ⟨r, hr⟩ := (isPrefixOf_dashes b).mp hb
+    exact Or.inr (Or.inl ⟨45, r, Or.inl rfl, hr⟩)
+  · obtain ⟨r, hr⟩ := (isPrefixOf_slashes b).mp hb
+    exact Or.inr (Or.inl ⟨47, r, Or.inr rfl, hr⟩)
   · cases b with
     | nil => simp at hb
     | cons c b => simp at hb; exact Or.inr (Or.inr ⟨b, by rw [hb]⟩)
 
+/-- **C10.comment_lines_indented**: a comment that starts a line (`--` or `//`, however it was indented) is written
+at exactly `width x depth` spaces. -/
+theorem comment_lines_indented (w d : Nat) (s e : Bool) (a ws m b : Bytes) (hws : ws.all (fun c => c == 32 || c == 9) = true)
+    (hm : m = [45, 45] ∨ m = [47, 47]) :
+    ∃ pre post, normRun w d s e (a ++ [10] ++ ws ++ m ++ b) = pre ++ [10] ++ indentOf w d ++ m ++ post := by
+  rcases hm with rfl | rfl
+  · exact normRun_comment_line w d s e a ws b 45 hws (Or.inl rfl)
+  · exact normRun_comment_line w d s e a ws b 47 hws (Or.inr rfl)
+
+example : normRun 2 1 false false "x\n\t // c \n    ".toUTF8.toList = "x\n  // c\n  ".toUTF8.toList := by decide +kernel
 example : normRun 2 1 false false "  \n\n\n\t-- c \n    ".toUTF8.toList = "\n\n  -- c\n  ".toUTF8.toList := by decide +kernel
 example : normRun 2 1 false false "\n\n".toUTF8.toList = "\n\n  ".toUTF8.toList := by decide +kernel   -- blank line stays empty (defect 25)
 
